@@ -23,6 +23,7 @@ type FuncInfo struct {
 	Pkg   *packages.Package
 	Obj   *types.Func
 	loops map[ast.Node]int // loop ordinal (1-based, syntactic order)
+	rets  map[ast.Node]int // return statement ordinal (1-based, syntactic order)
 	boxed map[*types.Var]bool
 }
 
@@ -421,6 +422,7 @@ type State struct {
 	snaps  map[string]*State
 	nlock  int
 	ghostN map[string]int
+	retOrd int // ordinal of the return statement being executed (0 = none yet / fall off the end)
 }
 
 func NewState() *State {
@@ -429,7 +431,7 @@ func NewState() *State {
 
 func (s *State) Clone() *State {
 	n := &State{vars: make(map[*types.Var]*Term, len(s.vars)), heap: make(map[string]*Term, len(s.heap)), locks: make(map[string]string, len(s.locks)),
-		snaps: s.snaps, nlock: s.nlock, ghostN: s.ghostN}
+		snaps: s.snaps, nlock: s.nlock, ghostN: s.ghostN, retOrd: s.retOrd}
 	for k, v := range s.vars {
 		n.vars[k] = v
 	}
